@@ -144,13 +144,16 @@ class Built:
                 if spec.get(a):
                     attrs[a] = spec[a]
             if spec.get("media"):
-                attrs["Media"] = type("Media", (), dict(spec["media"]))
+                m = dict(spec["media"])
+                if isinstance(m.get("extend"), list):
+                    m["extend"] = [self.classes[b] for b in m["extend"]]
+                attrs["Media"] = type("Media", (), m)
             if fp is not None:
                 attrs["on_render_before"] = self._make_hook(fp, "on_render_before", cname)
                 attrs["on_render_after"] = self._make_hook(fp, "on_render_after", cname)
             bases = (Component,)
             if spec.get("base"):
-                bases = (self.classes[spec["base"]],)
+                bases = tuple(self.classes[b] for b in (spec["base"], spec.get("base2")) if b)
             pyname = spec.get("pyname") or f"{prefix.capitalize()}{cname}"
             if spec.get("namekind"):
                 from vf.assets import pyname as _pyname
